@@ -123,6 +123,8 @@ where
     let mut buffer = vec![0u8; CS::EXPAND_LEN];
     let mut generators = Vec::new();
     for i in 1..count + 1 {
+        #[cfg(zkryptium_verif)]
+        crate::verif_hooks::gen_step(i);
         v = [&*v, &i2osp::<8>(i)].concat();
         CS::Expander::expand_message(&[&v], &[&seed_dst], CS::EXPAND_LEN)
             .unwrap()
